@@ -139,6 +139,25 @@ def run(tier, seed):
                             ck.violation({"clause": "grid_sequence", "what": nm},
                                          "%s at colatitude %.6f (column %d of the grid %s, call %d of a sequence of grids with equal size and end points) differs from the single-colatitude call by %.3g (relative)" % (
                                              nm, thx, j, [round(float(x), 6) for x in grid], rep + 1, float(np.max(np.abs(got - exp))) / sc), {"l": l, "grid": [float(x) for x in grid], "rep": rep})
+        # next to the poles: 1 / sin(theta) and cot(theta) are large but finite; the traction identities hold there as everywhere
+        # (U_thth from the degree-l Laplace identity at that colatitude; cancellation of the 1/sin^2 terms costs ~1e-10, tolerance 1e-6)
+        if gi % 8 == 0:
+            Y, radius, shear, bulk = Y0, radius0, shear0, bulk0
+            for thp in (1.0e-3, 4.0e-3, 9.0e-3, math.pi - 2.0e-3):
+                sp, cp_ = math.sin(thp), math.cos(thp)
+                Utt_p = -l * (l + 1) * U - (cp_ / sp) * Uth - Uphph / sp ** 2
+                eP, sP = calculate_strain_stress(mk(U), mk(Uth), mk(Uph), mk(Utt_p), mk(Uphph), mk(Uthph), Y, lon, np.array([thp]), tim, radius, shear, bulk, 1.0e-5, l)
+                ck.case(("near_pole", gi, thp), True)
+                for i in range(len(radius)):
+                    y2c, y4c = Y[1, i], Y[3, i]
+                    want = {0: y2c * U, 3: y4c * Uth, 4: y4c * Uph / sp}
+                    scl = max(float(np.max(np.abs(sP[:, i, 0, 0, 0]))), max(abs(v) for v in want.values()), 1e-300)
+                    for kx, wv in want.items():
+                        if not abs(complex(sP[kx, i, 0, 0, 0]) - wv) <= 1e-6 * scl:
+                            nmx = {0: "sigma_rr = y2 U", 3: "sigma_rtheta = y4 U_theta", 4: "sigma_rphi = y4 U_phi / sin(theta)"}[kx]
+                            ck.violation({"clause": "near_pole", "identity": nmx.split(" ")[0]}, "at colatitude %.4g rad (next to a pole) %s fails: got %r, identity gives %r (largest stress component %.3g)" % (
+                                thp, nmx, complex(sP[kx, i, 0, 0, 0]), wv, scl), {"l": l, "theta": thp})
+                            break
         # axis order: potentials that differ along longitude, colatitude AND time (2 x 3 x 2); every (longitude, colatitude, time)
         # element of the batched result must be the single-point result for the potential values at that element
         if gi % 16 == 0:
